@@ -1,11 +1,12 @@
-//@ assume: pmmr::bintree_postorder_height / n_leaves / is_left_sibling / peaks are abstract here with uninterpreted results (their exact contracts are proved in C07/pmmr_arith). ASSUMED arithmetic facts about them, true of the MMR numbering but not machine-checked in this unit: a node of height h >= 1 sits at a position >= 2^h (so `1 + pos0 - (1 << height)` and `left_child_pos - 1` do not underflow), h <= 63, n_leaves(p+1) >= 1, and a leaf that is a right sibling has n_leaves(p+1) >= 2 (so `idx_1 - 1` does not underflow)
+//@ assume: pmmr::bintree_postorder_height / n_leaves / is_left_sibling are the REAL functions with their contracts from C07/pmmr_arith (included and re-verified here; `pmmr::f(` => `f(`); the arithmetic facts this function relies on -- a node of height h >= 1 sits at a position >= 2^h, a leaf that is a right sibling has at least two leaves up to and including itself -- are proved here as lemmas over the explicit tree (lemma_subtree_fits of C07, lemma_right_leaf_two, lemma_lb_pos). pmmr::peaks is abstract (peaks_in_range_rev)
 //@ assume: segment_pos_range / full_segment are abstract (contracts proved in C16/segment_ident); used here: first <= last+1 and last < mmr_size; Hash, the leaf element type and `hash_with_index` are abstract (uninterpreted hash functions); croaring Bitmap::contains is abstract (has(idx))
 //@ assume: T5: generic `Segment<T>` => one abstract leaf type Leaf. The std iterator `self.leaf_pos.iter().zip(&self.leaf_data)` + `.find(|&(&p, _)| p == pos0).map(|(_, l)| l)` => LeafZip, a VERIFIED stand-in (cursor over the two vectors; find_pos advances to the first remaining entry with that position, exactly as Iterator::find does, consuming what it skips); `self.hash_pos.iter().zip(&self.hashes).find(..).map(..)` inside get_hash likewise
 //@ assume: T6: `.ok_or_else(|| E)` => `.ok_or(E)` (E is a plain enum value: eager construction is unobservable); `bitmap.map(closure).unwrap_or(true)` => opt_map_bitmap(bitmap, env).unwrap_or(true) with the REAL closure body verified as the lifted function leaf_required (T7); `(l, r).hash_with_index(p)` => hash_pair(l, r, p); `pmmr::peaks(..).into_iter().filter(|&pos0| pos0 >= first && pos0 <= last).rev()` => peaks_in_range_rev (abstract: some list of positions <= last); `for pos0 in peaks` => slice iterator form; `for pos0 in first..=last` => `first..last + 1` (last < mmr_size < 2^63, so no overflow; this verifier leaves the loop variable of an inclusive range unconstrained); `hash.map(Some).ok_or(E)` => the equivalent match
 //@ assume: assumed precondition: 1 <= mmr_size < 2^63
 //@ assume: decided here (C16, 'omitting a leaf the bitmap marks unspent makes validation fail'), for ANY segment contents received from a peer: Segment::root never panics / overflows / indexes out of range, and it returns Ok ONLY IF, for every leaf position p in the segment's range that is REQUIRED -- the MMR is not prunable (no bitmap), or the bitmap has the leaf's index or its sibling's index set, or p is the last position of the MMR -- the segment carries an entry for p in leaf_pos (the closure computing 'required' is verified verbatim: idx = n_leaves(p+1)-1, sibling index = idx+1 for a left sibling and idx-1 for a right one). It returns Ok(None) only for a prunable MMR (this discharges, for this unit's text, the assumption C16/first_unpruned_parent makes about root). That the returned hash is the Merkle root of those leaves is NOT decided here (bounded Kani harness in C11/C16 covers small shapes).
-//@ assumed_items: 11
+//@ assumed_items: 8
 //@ fns: Segment::root, closure in Segment::root, Segment::get_hash
+//@ include: ../C07/pmmr_arith.verus.rs
 #[derive(Clone, Copy, PartialEq, Eq)]
 pub struct Hash { pub h: u64 }
 #[derive(Clone, Copy, PartialEq, Eq)]
@@ -27,19 +28,53 @@ impl Bitmap {
     #[verifier::external_body]
     pub fn contains(&self, idx: u32) -> (r: bool) ensures r == self.has(idx) { unimplemented!() }
 }
-pub uninterp spec fn sp_height(pos0: u64) -> u64;
-pub uninterp spec fn sp_n_leaves(size: u64) -> u64;
-pub uninterp spec fn sp_is_left(pos0: u64) -> bool;
-pub mod pmmr { use super::*;
-    #[verifier::external_body]
-    pub fn bintree_postorder_height(pos0: u64) -> (r: u64)
-        ensures r == sp_height(pos0), r <= 63, r >= 1 ==> (1u64 << r) <= pos0 && pos0 >= 2 { unimplemented!() }
-    #[verifier::external_body]
-    pub fn n_leaves(size: u64) -> (r: u64)
-        ensures r == sp_n_leaves(size), size >= 1 ==> r >= 1, r <= size,
-            size >= 1 && sp_height((size - 1) as u64) == 0 && !sp_is_left((size - 1) as u64) ==> r >= 2 { unimplemented!() }
-    #[verifier::external_body]
-    pub fn is_left_sibling(pos0: u64) -> (r: bool) ensures r == sp_is_left(pos0) { unimplemented!() }
+pub open spec fn sp_height(pos0: u64) -> u64 { ht(pos0 as nat, 64) as u64 }
+pub open spec fn sp_n_leaves(size: u64) -> u64 { lb(size as nat, 64) as u64 }
+pub open spec fn sp_is_left(pos0: u64) -> bool { !is_right(pos0 as nat, 64) }
+/// at least one leaf lies before any position >= 1
+proof fn lemma_lb_pos(pos: nat, h: nat)
+    requires 1 <= pos < tsize(h)
+    ensures lb(pos, h) >= 1
+    decreases h
+{
+    lemma2_to64(); lemma_psize(h);
+    if h > 0 {
+        lemma_pow2_unfold(h); lemma_psize((h - 1) as nat); lemma_pow2_pos((h - 1) as nat); lemma_pow2_pos(h);
+        if pos == tsize(h) - 1 {
+        } else if pos < tsize((h - 1) as nat) {
+            lemma_lb_pos(pos, (h - 1) as nat);
+        } else {
+        }
+    }
+}
+/// a leaf that is a right sibling has its left sibling before it: at least two leaves at positions <= pos
+proof fn lemma_right_leaf_two(pos: nat, h: nat)
+    requires pos + 1 < tsize(h), ht(pos, h) == 0, is_right(pos, h)
+    ensures lb(pos + 1, h) >= 2
+    decreases h
+{
+    lemma2_to64(); lemma_psize(h);
+    if h > 0 {
+        let t = tsize((h - 1) as nat);
+        lemma_pow2_unfold(h); lemma_pow2_unfold(h + 1); lemma_psize((h - 1) as nat); lemma_pow2_pos((h - 1) as nat);
+        assert(tsize(h) == 2 * t + 1);
+        if pos < t {
+            if pos + 1 == t {
+                lemma_ht_root(pos, (h - 1) as nat);
+                lemma_isright_root(pos, (h - 1) as nat);
+            } else {
+                lemma_right_leaf_two(pos, (h - 1) as nat);
+            }
+        } else {
+            let q = (pos - t) as nat;
+            if q == t - 1 {
+                lemma_ht_root(q, (h - 1) as nat);
+            } else if pos + 1 == tsize(h) - 1 {
+            } else {
+                lemma_right_leaf_two(q, (h - 1) as nat);
+            }
+        }
+    }
 }
 /// `pmmr::peaks(mmr_size).into_iter().filter(in segment range).rev()`
 #[verifier::external_body]
@@ -58,10 +93,15 @@ fn opt_map_bitmap(bitmap: Option<&Bitmap>, env: ReqEnv) -> (r: Option<bool>)
     ensures bitmap matches Some(b) ==> r == Some(required_by(*b, env.pos0, env.mmr_size)), bitmap.is_none() ==> r.is_none() { unimplemented!() }
 //@ extract core/src/core/pmmr/segment.rs :: impl Segment::root
 //@   closure 1 lifted_as `fn leaf_required(b: &Bitmap, pos0: u64, mmr_size: u64) -> bool`
+//@   rewrite `pmmr::n_leaves(` => `n_leaves(`
+//@   rewrite `pmmr::is_left_sibling(` => `is_left_sibling(`
 //@   requires:
 //@+    pos0 < mmr_size, mmr_size < 0x8000_0000_0000_0000u64, sp_height(pos0) == 0,
 //@   ensures:
 //@+    r == required_by(*b, pos0, mmr_size),
+//@   at_start:
+//@+    proof { lemma2_to64(); lemma_psize(64); lemma_pow2_unfold(64); lemma_ht_small(pos0 as nat); lemma_lb_pos((pos0 + 1) as nat, 64); lemma_lb_le((pos0 + 1) as nat, 64);
+//@+        if is_right(pos0 as nat, 64) { lemma_right_leaf_two(pos0 as nat, 64); } }
 //@ end
 /// stand-in for `a.iter().zip(&b)` over the segment's (position, value) vectors; verified, not assumed
 pub struct LeafZip<'a> { pub pos: &'a Vec<u64>, pub data: &'a Vec<Leaf>, pub cur: usize }
@@ -115,6 +155,10 @@ impl Segment {
 //@ end
 //@ extract core/src/core/pmmr/segment.rs :: impl Segment::root
 //@   closure 1 replaced_by `ReqEnv { pos0, mmr_size }`
+//@   rewrite `pmmr::bintree_postorder_height(` => `bintree_postorder_height(`
+//@   after `let height = bintree_postorder_height(pos0);`:
+//@+    proof { lemma2_to64(); lemma_psize(64); lemma_pow2_unfold(64); lemma_subtree_fits(pos0 as nat, 64); lemma_ht_small(pos0 as nat); lemma_shl2(height);
+//@+        if height >= 1 { lemma_pow2_unfold(height as nat + 1); lemma_pow2_pos(height as nat); lemma_pow2_unfold(height as nat); } }
 //@   rewrite `let mut leaves0 = self.leaf_pos.iter().zip(&self.leaf_data);` => `let mut leaves0 = zip_leaves(&self.leaf_pos, &self.leaf_data);`
 //@   rewrite `if bitmap\n\t\t\t\t\t.map(` => `if opt_map_bitmap(bitmap, `
 //@   rewrite `.find(|&(&p, _)| p == pos0)\n\t\t\t\t\t\t.map(|(_, l)| l)` => `.find_pos(pos0)`
